@@ -94,3 +94,8 @@ P("C17", "proof", kani={"timeout": "1500s", "compile_clause": True},
   unbounded="every name constructor emits prefix ++ dec(i) (++ sep ++ dec(j) ++ sep ++ dec(k)) with the pieces as they stand in the source; injectivity within a family and pairwise distinctness of all families for ALL indices (lemma_names_never_clash)",
   bounded="12 x 12 program with block captures on every action; 11 named branches with handler; nesting of the 4 executable kinds to depth 3 inside operands, captures and handlers",
   not_decided="identifier literals inside quote! bodies vs user identifiers (macro hygiene); spawn kinds")
+
+P("C19", "other", kani={"timeout": "600s", "compile_clause": True},
+  explanation="bounds claim only: programs over move-only (no Clone, counting Drop), non-Send (Rc) and stack-borrowing (&, &mut, non-'static) values must type-check through the real expansion of the four non-spawning executable kinds (rustc's type system is the checker; a rustc error originating in the macro is the violation) and run to the documented value under Kani with live()==0 at the end",
+  bounded="11 programs (operators, steps, wrappers, handlers, let names, async)",
+  not_decided="the heap-allocation claim (Kani ignores custom allocators; no verifier here decides it); spawn kinds legitimately need Send + 'static")
